@@ -40,7 +40,7 @@ def env_info():
 
 def plan(tier):
     q = tier == "quick"
-    return [dict(unit="w2", n=200 if q else 8000, builds=["py", "so"], case_timeout=180),
+    return [dict(unit="w2", n=200 if q else 5000, builds=["py", "so"], case_timeout=180),
             dict(unit="w1", n=400 if q else 15000, builds=["py", "so"], case_timeout=60),
             dict(unit="faults", n=(len(FAULTS) * 110) if q else (len(FAULTS) * 1500), builds=["py", "so"], case_timeout=60)]
 
